@@ -367,7 +367,14 @@ def run_call(pool, call, res):
             open(call['path'], 'w').close()
         elif kind == 'kill_idle_worker':
             # SIGKILL worker w of an idle (kept-alive / apply) pool
-            w = pool._workers[call['worker'] % len(pool._workers)]
+            idx = call['worker'] % len(pool._workers)
+            w = pool._workers[idx]
+            # the start-up window of a worker (before it announced itself) is outside the property: wait until the victim
+            # is up and idle
+            t_end = time.time() + 15
+            while time.time() < t_end and not pool._worker_comms.is_worker_alive(idx):
+                time.sleep(0.02)
+            time.sleep(0.15)
             out['killed_pid'] = w.pid
             os.kill(w.pid, signal.SIGKILL)
             time.sleep(call.get('settle', 0.5))
